@@ -6,6 +6,7 @@ import (
 	"fmt"
 	"io"
 	"math"
+	"math/big"
 	"slices"
 	"strconv"
 	"strings"
@@ -369,13 +370,13 @@ func (d *jsonDecoder) unmarshalScalar(fd protoreflect.FieldDescriptor) (protoref
 	case protoreflect.BoolKind:
 		return jsonValueDecode(d.dec, protoreflect.ValueOfBool)
 	case protoreflect.Int32Kind, protoreflect.Sint32Kind, protoreflect.Sfixed32Kind:
-		return jsonValueDecode(d.dec, jsonConvertNumber(protoreflect.ValueOfInt32))
+		return jsonIntegerDecode(fd, d.dec, 32, func(i *big.Int) protoreflect.Value { return protoreflect.ValueOfInt32(int32(i.Int64())) })
 	case protoreflect.Int64Kind, protoreflect.Sint64Kind, protoreflect.Sfixed64Kind:
-		return jsonValueDecode(d.dec, jsonConvertNumber(protoreflect.ValueOfInt64))
+		return jsonIntegerDecode(fd, d.dec, 64, func(i *big.Int) protoreflect.Value { return protoreflect.ValueOfInt64(i.Int64()) })
 	case protoreflect.Uint32Kind, protoreflect.Fixed32Kind:
-		return jsonValueDecode(d.dec, jsonConvertNumber(protoreflect.ValueOfUint32))
+		return jsonIntegerDecode(fd, d.dec, -32, func(i *big.Int) protoreflect.Value { return protoreflect.ValueOfUint32(uint32(i.Uint64())) })
 	case protoreflect.Uint64Kind, protoreflect.Fixed64Kind:
-		return jsonValueDecode(d.dec, jsonConvertNumber(protoreflect.ValueOfUint64))
+		return jsonIntegerDecode(fd, d.dec, -64, func(i *big.Int) protoreflect.Value { return protoreflect.ValueOfUint64(i.Uint64()) })
 	case protoreflect.FloatKind:
 		return jsonFloatDecode(fd, d.dec, protoreflect.ValueOfFloat32)
 	case protoreflect.DoubleKind:
@@ -420,11 +421,45 @@ func jsonValueDecode[T any](dec *json.Decoder, convert func(T) protoreflect.Valu
 	return convert(val), nil
 }
 
-func jsonConvertNumber[T constraints.Integer](convert func(T) protoreflect.Value) func(json.Number) protoreflect.Value {
-	return func(n json.Number) protoreflect.Value {
-		i, _ := n.Int64()
-		return convert(T(i))
+// jsonIntegerDecode decodes a JSON number or numeric string which must denote an integer fitting into the specified
+// number of bits (negative for unsigned kinds), as required by the Proto3 JSON mapping:
+// values with a fractional part or out of range are errors instead of being truncated or wrapped around.
+func jsonIntegerDecode(fd protoreflect.FieldDescriptor, dec *json.Decoder, bits int, convert func(*big.Int) protoreflect.Value) (protoreflect.Value, error) {
+	var n json.Number
+	if err := dec.Decode(&n); err != nil {
+		return protoreflect.Value{}, err
 	}
+
+	if n == "" {
+		// null, treated as the default value just like it is for all the other scalars
+		return convert(new(big.Int)), nil
+	}
+
+	i, ok := jsonParseInteger(string(n))
+	if !ok {
+		return protoreflect.Value{}, fmt.Errorf("invalid value for %v type: %v", fd.Kind(), n)
+	}
+
+	if bits > 0 && i.BitLen() < bits || bits > 0 && i.Cmp(new(big.Int).Lsh(big.NewInt(-1), uint(bits-1))) == 0 ||
+		bits < 0 && i.Sign() >= 0 && i.BitLen() <= -bits {
+		return convert(i), nil
+	}
+
+	return protoreflect.Value{}, fmt.Errorf("value out of range for %v type: %v", fd.Kind(), n)
+}
+
+func jsonParseInteger(s string) (*big.Int, bool) {
+	// guard against exponents which would make the exact value needlessly huge, no valid integer needs them
+	if e := strings.IndexAny(s, "eE"); e >= 0 && len(s)-e > 5 {
+		return nil, false
+	}
+
+	r, ok := new(big.Rat).SetString(s)
+	if !ok || !r.IsInt() {
+		return nil, false
+	}
+
+	return r.Num(), true
 }
 
 func jsonFloatDecode[T constraints.Float](fd protoreflect.FieldDescriptor, dec *json.Decoder, convert func(T) protoreflect.Value) (protoreflect.Value, error) {
